@@ -1090,8 +1090,10 @@ class ConvertInstance:
         ctx.visit(search_unneeded_bool_casts)
 
         def replace_temporaries(obj, access):
-            if obj in replacement_map:
-                return replacement_map[obj]
+            # follow chains of removed casts (the input of a removed
+            # cast can be the result of another removed cast)
+            while obj in replacement_map:
+                obj = replacement_map[obj]
 
             return obj
 
